@@ -94,6 +94,24 @@ type c18Case struct {
 	EvalCase
 	Specs     []optSpec `json:"specs"`
 	Unwrapped *uni.Node `json:"unwrapped,omitempty"` // the document before wrapping (nil when nothing was wrapped)
+	// AliasHead > 0: the Go value of key "head" is made a prefix slice of the value of key "all"
+	// (shared backing array), as in `head := all[:k]`; the model holds the same k elements.
+	AliasHead int `json:"alias_head,omitempty"`
+}
+
+// goDatum realises a document and applies the storage sharing described by AliasHead.
+func (c *c18Case) goDatum(n *uni.Node) interface{} {
+	d := n.Interface()
+	if c.AliasHead > 0 {
+		if m, ok := d.(map[string]interface{}); ok {
+			if all, ok := m["all"].([]interface{}); ok && len(all) >= c.AliasHead {
+				if _, ok := m["head"].([]interface{}); ok {
+					m["head"] = all[:c.AliasHead]
+				}
+			}
+		}
+	}
+	return d
 }
 
 func toOptions(specs []optSpec) []bexpr.Option {
@@ -155,7 +173,7 @@ func c18Check(t failer, c *c18Case) (ref.Set, int) {
 	if err != nil {
 		t.Fatalf("harness: %v", err)
 	}
-	d := c.Datum.Interface()
+	d := c.goDatum(c.Datum)
 	eff := effective(c.Specs)
 	base := c18Eval(t, c, text, toOptions(c.Specs), d)
 
@@ -246,7 +264,7 @@ func c18Check(t failer, c *c18Case) (ref.Set, int) {
 	if c.Unwrapped != nil && eff.Hook == int(ref.HookUnwrap) && want.Singleton() {
 		plain := eff
 		plain.Hook = 0
-		got := c18Eval(t, c, text, plain.Options(), c.Unwrapped.Interface())
+		got := c18Eval(t, c, text, plain.Options(), c.goDatum(c.Unwrapped))
 		if got.out != base.out {
 			violation(t, "C18", "TestC18_Options", c, "unwrap hook: wrapped document gives %v, the unwrapped document without hook gives %v\n expr: %s\n wrapped: %s\n plain: %s",
 				base, got, c.TextQ, c.Datum, c.Unwrapped)
@@ -310,6 +328,19 @@ func TestC18_Options(t *testing.T) {
 			p = uni.Profile{Depth: 3, JSON: true, NilLeaves: true, MaxLen: 4}
 		}
 		root := uni.GenDatum(t, p)
+		aliasHead := 0
+		if hookFocus {
+			if top := root.Dyn(); top != nil && top.T.K == uni.KMap && top.T.Elem.K == uni.KIface && !top.Nil && rapid.Bool().Draw(t, "aliasedSlices") {
+				// two lists sharing storage: all, and head = all[:k]
+				var elems []*uni.Node
+				for i := rapid.IntRange(2, 5).Draw(t, "allLen"); i > 0; i-- {
+					elems = append(elems, uni.InIface(uni.Str([]string{"a", "b", "c", "d"}[rapid.IntRange(0, 3).Draw(t, "allElem")])))
+				}
+				aliasHead = rapid.IntRange(1, len(elems)-1).Draw(t, "headLen")
+				top.Keys = append(top.Keys, uni.Str("all"), uni.Str("head"))
+				top.Elems = append(top.Elems, uni.InIface(uni.List(uni.SliceOf(uni.Iface()), elems...)), uni.InIface(uni.List(uni.SliceOf(uni.Iface()), elems[:aliasHead]...)))
+			}
+		}
 		// option list (the budget is filled in once the expression's step count is known)
 		n := rapid.IntRange(0, 5).Draw(t, "nopts")
 		var specs []optSpec
@@ -348,7 +379,7 @@ func TestC18_Options(t *testing.T) {
 				specs[i].Max = []uint64{0, steps, steps + 1, steps * 4, 1 << 40, steps - 1, steps / 2, 1}[specs[i].Max]
 			}
 		}
-		c := &c18Case{EvalCase: *newEvalCase(text, e, root, Opts{}), Specs: specs}
+		c := &c18Case{EvalCase: *newEvalCase(text, e, root, Opts{}), Specs: specs, AliasHead: aliasHead}
 		eff := effective(specs)
 		if eff.Hook == int(ref.HookUnwrap) {
 			cnt := 0
